@@ -326,6 +326,44 @@ def mk_mul(name, D, L, sgn, opn="mul", shape=None, mode="int"):
     return k_
 
 
+def mk_arith128(name, D, N, opn):
+    """layout-independent: operands are built from 64-bit halves through wide_integer's own operators, results are read
+    back through shifts and conversions - so the storage chosen for (D digits + sign) is itself under test"""
+    T = "cnl::wide_integer<%d, %s>" % (D, cpp(N))
+    o = {"add": "+", "sub": "-"}[opn]
+    body = ("    using W = %s;\n"
+            "    W a = (W{ah} << 64) + W{al};\n    W b = (W{bh} << 64) + W{bl};\n    W r = a %s b;\n"
+            "    out[0] = static_cast<std::uint64_t>(r); out[1] = static_cast<std::uint64_t>(r >> 64);\n"
+            "    out[2] = static_cast<std::uint64_t>(static_cast<std::int64_t>(r >> %d)); out[3] = (r < W{0}) ? 1 : 0; out[4] = (a < b) ? 1 : 0;\n"
+            "    return 0;") % (T, o, D)
+    args = [("ah", "i64"), ("al", "u64"), ("bh", "i64"), ("bl", "u64"), Arg("out", "u64", "arr", n=5, out=True, init="uninit")]
+    WW = 200
+
+    def claims(env, path):
+        if path.kind != "RET":
+            return [("unexpected-outcome", False)]
+        c = getattr(path, "concrete", False)
+        o_ = env.out(path, "out")
+        if c:
+            A = env.a["ah"] * (1 << 64) + env.a["al"]
+            B = env.a["bh"] * (1 << 64) + env.a["bl"]
+            R = A + B if opn == "add" else A - B
+            exp = [R & ((1 << 64) - 1), (R >> 64) & ((1 << 64) - 1), (R >> D) & ((1 << 64) - 1), 1 if R < 0 else 0, 1 if A < B else 0]
+            return [("value-of-%d-digit-result" % D, all((x & ((1 << 64) - 1)) == e for x, e in zip(o_, exp)))]
+        ah, al, bh, bl = (env.dom.E(env.raw[k_]) for k_ in ("ah", "al", "bh", "bl"))
+        A = z3.SignExt(WW - 64, ah) * z3.BitVecVal(1 << 64, WW) + z3.ZeroExt(WW - 64, al)
+        B = z3.SignExt(WW - 64, bh) * z3.BitVecVal(1 << 64, WW) + z3.ZeroExt(WW - 64, bl)
+        R = A + B if opn == "add" else A - B
+        lim = [z3.Extract(63, 0, x) if x.size() > 64 else x for x in o_]
+        return [("low-64", lim[0] == z3.Extract(63, 0, R)), ("bits-64-127", lim[1] == z3.Extract(127, 64, R)),
+                ("bits-above-%d" % D, lim[2] == z3.Extract(63, 0, R >> D)),
+                ("sign-test", lim[3] == z3.If(R < 0, z3.BitVecVal(1, 64), z3.BitVecVal(0, 64))),
+                ("order", lim[4] == z3.If(A < B, z3.BitVecVal(1, 64), z3.BitVecVal(0, 64)))]
+    return Kernel(name, args, "i32", body, mode="bv", W=72, claims=claims, unwind=80, max_paths=20000, timeout=120,
+                  desc="wide_integer<%d,%s>: (hi<<64)+lo %s (hi<<64)+lo, read back by shifts" % (D, N, o),
+                  tags={"op": "arith128-" + opn, "D": D, "N": N})
+
+
 def kernels(opts):
     tier = opts["tier"]
     rng = random.Random("c10/%s/%s" % (opts["seed"], tier))
@@ -365,4 +403,7 @@ def kernels(opts):
                     ks.append(mk_mul("K%d" % len(ks), D, L, sgn, "div", shape=(2, 2)))
                     ks.append(mk_mul("K%d" % len(ks), D, L, sgn, "rem", shape=(3, 2)))
                     ks.append(mk_mul("K%d" % len(ks), D, L, sgn, "div", shape=(3, 1)))
+    # digit counts that are exact multiples of the limb width (the sign bit needs one more limb)
+    for (N, opn) in ((("i16", "add"), ("i32", "add"), ("i32", "sub"), ("i64", "add"), ("i64", "sub")) if tier != "quick" else (("i32", "add"), ("i64", "sub"))):
+        ks.append(mk_arith128("K%d" % len(ks), 128, N, opn))
     return ks
